@@ -75,6 +75,10 @@ def cases(draw, tier):
                                                 max_size=4)),
                            "other": "zz"} for _ in range(n)]
         for m_ in spec["obs_md"]:
+            # blanks inside a level name are part of the name
+            if draw(st.integers(0, 5)) == 0:
+                m_["tax"][0] = draw(st.sampled_from(
+                    ["k__A  b", "k__A\u00a0b", "g__x \u2003y", "s__a   z"]))
             # an unnamed level inside a lineage (k__A; ; c__C)
             if len(m_["tax"]) >= 3 and draw(st.integers(0, 3)) == 0:
                 m_["tax"][1] = ""
@@ -218,6 +222,12 @@ def importer(text, case, d):
                             not text.endswith("\n") else ""))
     if how in ("path", "path_nl", "gzip"):
         t = load_table(p)
+        if len(text) % 2 and not t.is_empty():
+            # what was loaded is edited in place, then the path is loaded
+            # again: it still holds the same table
+            t.transform(lambda v, i, md_: v * 2 + 1, axis="observation",
+                        inplace=True)
+            t = load_table(p)
         if md != "none":
             # load_table keeps the raw text; apply the inverse ourselves
             col = case["colname"]
